@@ -142,26 +142,48 @@ pub fn write_eh_frame(
 ) -> EhFrame {
     let mut out: Vec<u8> = Vec::new();
     let mut fde_offsets = Vec::new();
-    let n_cies = n_cies.max(1) as usize;
+    // `n_cies` encodes the layout too: values above 3 mean "all CIEs first, then the FDEs".
+    let cies_first = n_cies > 3;
+    let n_cies = (if cies_first { n_cies - 2 } else { n_cies }).max(1) as usize;
+    // CIEs differ in their FDE pointer encoding (where the addresses allow it)
+    let alt = [PtrEnc::Abs8, PtrEnc::PcRel8, PtrEnc::PcRel4, PtrEnc::TextRel4];
+    let cie_enc: Vec<PtrEnc> = (0..n_cies)
+        .map(|ci| {
+            if ci == 0 {
+                enc
+            } else {
+                let e = alt[(ci + enc as usize) % alt.len()];
+                if enc_fits(e, fdes, section_svma, text_svma) { e } else { PtrEnc::Abs8 }
+            }
+        })
+        .collect();
     let mut cie_off: Vec<Option<usize>> = vec![None; n_cies];
+    let emit_cie = |out: &mut Vec<u8>, enc: PtrEnc| -> usize {
+        let start = out.len();
+        out.extend_from_slice(&[0, 0, 0, 0]); // length, patched below
+        out.extend_from_slice(&0u32.to_le_bytes()); // CIE id
+        out.push(1); // version
+        out.extend_from_slice(b"zR\0");
+        uleb(out, 1); // code alignment
+        sleb(out, 1); // data alignment
+        out.push(DReg::Ra.num(arch) as u8); // return address register
+        uleb(out, 1); // augmentation data length
+        out.push(enc_byte(enc));
+        pad8(out, start + 4);
+        let len = (out.len() - start - 4) as u32;
+        out[start..start + 4].copy_from_slice(&len.to_le_bytes());
+        start
+    };
+    if cies_first {
+        for ci in 0..n_cies.min(fdes.len().max(1)) {
+            cie_off[ci] = Some(emit_cie(&mut out, cie_enc[ci]));
+        }
+    }
     for (i, fde) in fdes.iter().enumerate() {
         let ci = i % n_cies;
+        let enc = cie_enc[ci];
         if cie_off[ci].is_none() {
-            let start = out.len();
-            cie_off[ci] = Some(start);
-            out.extend_from_slice(&[0, 0, 0, 0]); // length, patched below
-            out.extend_from_slice(&0u32.to_le_bytes()); // CIE id
-            out.push(1); // version
-            out.extend_from_slice(b"zR\0");
-            uleb(&mut out, 1); // code alignment
-            sleb(&mut out, 1); // data alignment
-            out.push(DReg::Ra.num(arch) as u8); // return address register
-            uleb(&mut out, 1); // augmentation data length
-            out.push(enc_byte(enc));
-            // initial instructions: none (every row sets its full state)
-            pad8(&mut out, start + 4);
-            let len = (out.len() - start - 4) as u32;
-            out[start..start + 4].copy_from_slice(&len.to_le_bytes());
+            cie_off[ci] = Some(emit_cie(&mut out, enc));
         }
         let start = out.len();
         fde_offsets.push((fde.start, start as u64));
